@@ -198,6 +198,18 @@ def step_instance(a, t, r, pts):
         return False
 
 
+def call_instance(a, what, t, r, pts):
+    try:
+        if what == "pull":
+            pts.append(list(map(float, guarded(a.pull, t))))
+        else:
+            guarded(a.receive_reward, t, r)
+        return True
+    except Exception as e:
+        pts.append(["EXC", type(e).__name__])
+        return False
+
+
 def last_of(a):
     try:
         return list(map(float, guarded(a.get_last_point)))
@@ -260,8 +272,14 @@ def c14_group(seed, idx, algo):
     rewards = list(base.trace["rewards"])
     rnd = random.Random(f"c14-{seed}-{idx}-{algo}")
     s = rnd.randint(0, 2 ** 31 - 1)
+    def heap_fill(v):
+        # NumPy recycles small freed blocks: whatever an np.empty() of the algorithm reads is what the process left there
+        for k_ in range(1, 97):
+            a_ = np.full(k_, v); del a_
     try:
+        heap_fill(np.nan)
         r1 = plain_run(algo, meta, rewards, s)
+        heap_fill(0.5)
         r2 = plain_run(algo, meta, rewards, s)
         if True:
             ref = fresh_plain_run(algo, meta, rewards, s)
@@ -319,14 +337,29 @@ def c14_group(seed, idx, algo):
             pa, pb, ia, ib = [], [], 0, 0
             n = len(rewards)
             deadA = deadB = False
+            # interleaving at the level of single calls: one instance may pull (and the other complete whole rounds, or
+            # pull as well) between an instance's pull and the receive_reward that answers it
+            halfA = halfB = False            # a pull is waiting for its reward
+            call_level = rnd.random() < 0.6
             while (ia < n and not deadA) or (ib < n and not deadB):
                 burst = rnd.choice([1, 1, 1, 2, 5])
                 who = rnd.choice("AB")
                 for _ in range(burst):
                     if who == "A" and ia < n and not deadA:
-                        deadA = not step_instance(A, meta["t0"] + ia, rewards[ia], pa); ia += 1
+                        if not call_level:
+                            deadA = not step_instance(A, meta["t0"] + ia, rewards[ia], pa); ia += 1
+                        elif not halfA:
+                            deadA = not call_instance(A, "pull", meta["t0"] + ia, None, pa); halfA = True
+                        else:
+                            deadA = not call_instance(A, "recv", meta["t0"] + ia, rewards[ia], pa); halfA = False; ia += 1
                     elif who == "B" and ib < n and not deadB:
-                        deadB = not step_instance(B, meta["t0"] + ib, rew2[ib], pb); ib += 1
+                        if not call_level:
+                            deadB = not step_instance(B, meta["t0"] + ib, rew2[ib], pb); ib += 1
+                        elif not halfB:
+                            deadB = not call_instance(B, "pull", meta["t0"] + ib, None, pb); halfB = True
+                        else:
+                            deadB = not call_instance(B, "recv", meta["t0"] + ib, rew2[ib], pb); halfB = False; ib += 1
+            base.tags["c14-call-level-interleavings" if call_level else "c14-round-level-interleavings"] += 1
             la, lb = last_of(A), last_of(B)
             if pa != aloneA[0] or la != aloneA[1]:
                 base.fail("C14", "instances-interfere", f"{algo} interleaved with {other}: differs from running alone at round {first_diff_idx(pa, aloneA[0])}", algo=algo, other=other)
